@@ -2,6 +2,7 @@
       vls-persist/src/kvv/memory.rs   MemoryKVVStore   key |-> (version, value) in a BTreeMap
       vls-persist/src/kvv/redb.rs     RedbKVVStore     redb table + [versions] cache, reopen
       vls-persist/src/kvv/cloud.rs    CloudKVVStore<MemoryKVVStore>  local store + commit log
+                                      (and CloudKVVStore<RedbKVVStore> across restarts: [cr_step])
     Definitions only.  The model describes the code WITH the two repairs of
     notes/fixes/C16-*.patch (batch entries are judged against the running state; the cloud
     store refuses a version below the staged one); the behaviour of the unrepaired code is
@@ -338,6 +339,15 @@ Definition c_commit (c : cloud) : cloud * res :=
   | Some l => let '(s, r) := m_batch (local c) l in (mkcloud s None false, r)
   end.
 
+(** put_batch_unlogged: refused with a panic inside a transaction (the guard is alive), else
+    the whole list - tombstones (empty values) included - goes to the local store's put_batch *)
+Definition c_unlogged (c : cloud) (l : list kvv) : cloud * res :=
+  if cpoison c then (c, RAbort) else
+  match clog c with
+  | Some _ => (c_poison c, RAbort)
+  | None => let '(s, r) := m_batch (local c) l in (mkcloud s None false, r)
+  end.
+
 (** what a transaction sees of key [k] *)
 Definition c_visible (c : cloud) (k : key) : option vv :=
   match clog c with
@@ -355,7 +365,9 @@ Inductive op :=
 | GetVersion (k : key)
 | GetPrefix (p : key)
 | Reopen                 (* disk: drop + open; a no-op for the other two *)
-| Enter | Prepare | Commit.   (* trait defaults on Memory and Redb *)
+| Enter | Prepare | Commit    (* trait defaults on Memory and Redb *)
+| Unlogged (l : list kvv).    (* put_batch_unlogged: state fetched from external storage,
+                                 applied at start-up; trait default = put_batch *)
 
 Definition m_step (p : profile) (s : store) (o : op) : store * obs :=
   match o with
@@ -370,6 +382,7 @@ Definition m_step (p : profile) (s : store) (o : op) : store * obs :=
   | Enter => (s, OUnit)
   | Prepare => (s, OList [])
   | Commit => (s, OUnit)
+  | Unlogged l => let '(s', r) := m_batch s l in (s', obs_of_res r)
   end.
 
 Definition d_step (p : profile) (d : disk) (o : op) : disk * obs :=
@@ -385,6 +398,7 @@ Definition d_step (p : profile) (d : disk) (o : op) : disk * obs :=
   | Enter => (d, OUnit)
   | Prepare => (d, OList [])
   | Commit => (d, OUnit)
+  | Unlogged l => let '(d', r) := d_batch d l in (d', obs_of_res r)
   end.
 
 Definition c_step_gen (fixed : bool) (p : profile) (sid : value) (c : cloud) (o : op) : cloud * obs :=
@@ -400,8 +414,21 @@ Definition c_step_gen (fixed : bool) (p : profile) (sid : value) (c : cloud) (o 
   | Enter => let '(c', r) := c_enter p sid c in (c', obs_of_res r)
   | Prepare => c_prepare c
   | Commit => let '(c', r) := c_commit c in (c', obs_of_res r)
+  | Unlogged l => let '(c', r) := c_unlogged c l in (c', obs_of_res r)
   end.
 Definition c_step := c_step_gen true.
+
+(** CloudKVVStore<RedbKVVStore> across signer restarts: the local store is on disk (and, never
+    being asked to [put], answers as the memory store does - Proofs: disk_refines_mem); a
+    restart ([Reopen]: drop the cloud store, open the directory again, wrap it anew) loses the
+    commit log and the poison, and keeps the local store *)
+Definition cr_step (p : profile) (sid : value) (c : cloud) (o : op) : cloud * obs :=
+  match o with
+  | Reopen => (mkcloud (local c) None false, OUnit)
+  | _ => c_step p sid c o
+  end.
+Definition cr_run (p : profile) (sid : value) (ops : list op) : cloud :=
+  fold_left (fun c o => fst (cr_step p sid c o)) ops c_init.
 
 (** states after a history *)
 Definition m_run (p : profile) (ops : list op) : store :=
